@@ -233,6 +233,8 @@ type world struct {
 	verbose bool
 	nreq    int
 	probed  bool
+	// the next statement fails (error-path probe, not a verdict)
+	failNext bool
 }
 
 var profTables = []string{"profiles", "profiles_series", "profiles_series_gin", "profiles_series_keys"}
@@ -245,7 +247,12 @@ func newWorld(res *Result) (*world, error) {
 	// chbridge hands an EMPTY ClickHouse array to database/sql as []interface{}; clickhouse-go delivers the typed empty
 	// slice of the column (Array(Tuple(String, String)) -> [][]interface{}), which is what the reader's scan targets expect
 	inner := w.SQL.Handler
+	x := &world{w: w, res: res}
 	w.SQL.Handler = func(ctx context.Context, q string, args []driver.NamedValue) (*fakesql.Answer, error) {
+		if x.failNext {
+			x.failNext = false
+			return nil, fmt.Errorf("code: 241, scripted database error")
+		}
 		a, err := inner(ctx, q, args)
 		if err != nil || a == nil {
 			return a, err
@@ -262,7 +269,7 @@ func newWorld(res *Result) (*world, error) {
 		}
 		return a, nil
 	}
-	return &world{w: w, res: res}, nil
+	return x, nil
 }
 
 func (x *world) close() { x.w.Close() }
